@@ -24,7 +24,7 @@ import (
 func TestMain(m *testing.M) { os.Exit(m.Run()) }
 
 type LMAction struct {
-	K   string `json:"k"` // lock | run | badunlock
+	K   string `json:"k"` // lock | run | runpanic | runerr | badunlock
 	Key string `json:"key"`
 	Ctx int    `json:"ctx"` // -1 = background context
 }
@@ -42,6 +42,7 @@ type lmStats struct {
 	windowInterference   bool // another worker acted on the same key while one was inside Lock/Unlock internals
 	cancelWhileQueued    bool
 	badUnlocks, panicsOK int
+	callbackExits        int // Run callbacks that left by panic or error
 }
 
 type lmRun struct {
@@ -117,6 +118,45 @@ func (r *lmRun) worker(script []LMAction) func(w *sched.Worker) {
 				if err == nil && !ran {
 					r.fail("Run(%q) returned nil without running the callback", a.Key)
 				}
+				delete(r.active, w.ID)
+			case "runpanic", "runerr":
+				// the callback leaves by a panic (recovered further up, as net/http does for a handler) or by an
+				// error: either way the caller no longer holds the key once Run is over
+				r.active[w.ID] = a.Key
+				ran, panicked := false, false
+				var err error
+				func() {
+					defer func() {
+						if rec := recover(); rec != nil {
+							if rec != "c19: callback panic" {
+								panic(rec)
+							}
+							panicked = true
+						}
+					}()
+					err = r.lm.Run(ctx, a.Key, func(context.Context) error {
+						ran = true
+						r.held[a.Key]++
+						r.critical(w, a.Key)
+						if a.K == "runpanic" {
+							panic("c19: callback panic")
+						}
+						return fmt.Errorf("c19: callback error")
+					})
+				}()
+				if ran {
+					r.held[a.Key]-- // Run is over (its Unlock has run): only now may the erroneous Unlock be offered
+				}
+				if ran && a.K == "runpanic" && !panicked {
+					r.fail("Run(%q): the callback's panic did not propagate", a.Key)
+				}
+				if ran && a.K == "runerr" && (err == nil || err.Error() != "c19: callback error") {
+					r.fail("Run(%q) returned %v, want the callback's error", a.Key, err)
+				}
+				if !ran && ctx.Err() == nil {
+					r.fail("Run(%q) did not run the callback although its context is not done (err %v)", a.Key, err)
+				}
+				r.st.callbackExits++
 				delete(r.active, w.ID)
 			case "badunlock":
 				// offered only while nobody holds the key
@@ -280,7 +320,7 @@ func genLMCase() *rapid.Generator[LMCase] {
 		for w := 0; w < nw; w++ {
 			var script []LMAction
 			for i, n := 0, rapid.IntRange(1, 3).Draw(t, "rounds"); i < n; i++ {
-				a := LMAction{K: rapid.SampledFrom([]string{"lock", "lock", "lock", "run", "badunlock"}).Draw(t, "k"), Key: rapid.SampledFrom(keys).Draw(t, "key"), Ctx: -1}
+				a := LMAction{K: rapid.SampledFrom([]string{"lock", "lock", "lock", "lock", "run", "badunlock", "runpanic", "runerr"}).Draw(t, "k"), Key: rapid.SampledFrom(keys).Draw(t, "key"), Ctx: -1}
 				if rapid.Bool().Draw(t, "cancellable") {
 					a.Ctx = w
 				}
@@ -316,6 +356,8 @@ var lmConfigs = []lmConfig{
 	{c: LMCase{Name: "2x1x1+cancel", NCtx: 2, Workers: [][]LMAction{{lk("k0", 0)}, {lk("k0", 1)}}, Cancels: []int{1}}, maxPreempt: -1, maxPreemptThorough: -1},
 	{c: LMCase{Name: "run-vs-lock+cancel", NCtx: 1, Workers: [][]LMAction{{{K: "run", Key: "k0", Ctx: -1}}, {lk("k0", 0)}}, Cancels: []int{0}}, maxPreempt: -1, maxPreemptThorough: -1},
 	{c: LMCase{Name: "2x1x1+badunlock", Workers: [][]LMAction{{lk("k0", -1)}, {{K: "badunlock", Key: "k0", Ctx: -1}, lk("k0", -1)}}}, maxPreempt: -1, maxPreemptThorough: -1},
+	{c: LMCase{Name: "runpanic-vs-lock", Workers: [][]LMAction{{{K: "runpanic", Key: "k0", Ctx: -1}, lk("k0", -1)}, {lk("k0", -1)}}}, maxPreempt: -1, maxPreemptThorough: -1},
+	{c: LMCase{Name: "runerr-vs-run+cancel", NCtx: 1, Workers: [][]LMAction{{{K: "runerr", Key: "k0", Ctx: -1}}, {{K: "run", Key: "k0", Ctx: 0}}}, Cancels: []int{0}}, maxPreempt: -1, maxPreemptThorough: -1},
 	{c: LMCase{Name: "2x1x2", Workers: [][]LMAction{{lk("k0", -1), lk("k0", -1)}, {lk("k0", -1), lk("k0", -1)}}}, maxPreempt: 4, maxPreemptThorough: 7},
 	{c: LMCase{Name: "2x2keys", Workers: [][]LMAction{{lk("k0", -1), lk("k1", -1)}, {lk("k1", -1), lk("k0", -1)}}}, maxPreempt: 4, maxPreemptThorough: 6},
 	{c: LMCase{Name: "3x2x2+cancel", NCtx: 3, Workers: [][]LMAction{{lk("k0", 0), lk("k1", -1)}, {lk("k1", 1), lk("k0", -1)}, {{K: "run", Key: "k0", Ctx: -1}, lk("k1", 2)}}, Cancels: []int{0, 2}},
@@ -324,7 +366,7 @@ var lmConfigs = []lmConfig{
 
 func TestC19Enum(t *testing.T) {
 	p := vt.Prop[LMCase]{ID: "C19", Test: "TestC19Enum",
-		Rule: "stateless DFS (re-execution) over ALL schedules of 2 goroutines x 1 key x 1 round (plain, with a cancellation, Run vs Lock, with an erroneous Unlock) and preemption-bounded DFS for 2x1x2 rounds, 2 goroutines x 2 keys in opposite order, and 3 goroutines x 2 keys x 2 rounds with two cancellations (bound 2 quick / 3 thorough; larger bounds for the 2-goroutine configurations in thorough); same monitors; distinct = distinct schedule (choice list); non-trivial as in TestC19Random",
+		Rule: "stateless DFS (re-execution) over ALL schedules of 2 goroutines x 1 key x 1 round (plain, with a cancellation, Run vs Lock, with an erroneous Unlock, Run whose callback panics or fails) and preemption-bounded DFS for 2x1x2 rounds, 2 goroutines x 2 keys in opposite order, and 3 goroutines x 2 keys x 2 rounds with two cancellations (bound 2 quick / 3 thorough; larger bounds for the 2-goroutine configurations in thorough); same monitors; distinct = distinct schedule (choice list); non-trivial as in TestC19Random",
 		Run:  runC19}
 	if vt.Replay() != "" {
 		p.Gen = rapid.Just(LMCase{})
